@@ -26,6 +26,13 @@ from asynkit.coroutine import coro_is_finished, coro_is_new, coro_is_suspended
 from .c01_lang import EXC_CLS, compile_body, kind_of
 
 
+import sys
+
+# bodies left suspended inside handlers that await again are destroyed at the end of a case; the
+# "coroutine ignored GeneratorExit" reports of that tear-down are not part of any comparison
+sys.unraisablehook = lambda *a: None
+
+
 class StubbornFuture(asyncio.Future):
     """cancel() on it behaves like Task.cancel(): the request is recorded, the state stays pending."""
     cancel_requested = False
@@ -177,7 +184,13 @@ def run_single(case, snapshots=True):
         mark = [0]
         cm = None
         if mode == "E":
-            t, cm = start_eager(variant, fn, env)
+            try:
+                t, cm = start_eager(variant, fn, env)
+            except BaseException as e:     # eager() itself must never raise what the body raised
+                snaps.append(f"{log_text(env.log)} | !raised:{kind_of(e)} | "
+                             + " ".join(fut_text(f) for f in env.futs) + f" | nt0 | {phase(env.coro)}")
+                snaps.extend(["!"] * len(case["events"]))
+                return env
         else:
             env.coro = fn(env)
             t = loop.create_task(env.coro)
@@ -263,7 +276,12 @@ def run_multi(case):
 
         def start(fn, e):
             if mode == "E":
-                return start_eager(variant if variant != "eager_ctx" else "eager", fn, e)[0]
+                try:
+                    return start_eager(variant if variant != "eager_ctx" else "eager", fn, e)[0]
+                except BaseException as x:
+                    f = loop.create_future()
+                    f.set_result("!raised:" + kind_of(x))
+                    return f
             e.coro = fn(e)
             return loop.create_task(e.coro)
 
